@@ -486,3 +486,65 @@ pub open spec fn loop_inv(f0: &Fsm, f: &Fsm, g: &GlobalData) -> bool {
     &&& ids_consistent(g)
     &&& kids_ok(f, g)
 }
+
+/// the loop invariant only depends on configuration, history, statesToInvoke (validity), the two ids and the child table
+pub proof fn lemma_inv_frame(f0: &Fsm, f: &Fsm, ga: &GlobalData, gb: &GlobalData)
+    requires
+        loop_inv(f0, f, ga),
+        gb.configuration == ga.configuration,
+        gb.historyValue == ga.historyValue,
+        all_valid(f, gb.statesToInvoke.data@),
+        gb.caller_invoke_id == ga.caller_invoke_id,
+        gb.parent_session_id == ga.parent_session_id,
+        gb.child_sessions@.submap_of(ga.child_sessions@),
+    ensures
+        loop_inv(f0, f, gb),
+{
+    let gm = GlobalData { statesToInvoke: gb.statesToInvoke, ..*ga };
+    assert(sess_wf(f, &gm)) by {
+        assert forall|h: u32| hv_has(&gm, h) implies #[trigger] hv_entry_ok(f, &gm, h) by {
+            assert(hv_entry_ok(f, ga, h));
+        }
+        assert forall|h: u32| hv_has(&gm, h) implies all_valid(f, #[trigger] hv_get(&gm, h)) by {
+            assert(all_valid(f, hv_get(ga, h)));
+        }
+    }
+    lemma_sess_frame(f, &gm, gb);
+    lemma_kids_sub(f, ga, gb);
+}
+
+pub proof fn lemma_same_doc_trans(f0: &Fsm, f1: &Fsm, f2: &Fsm)
+    requires
+        same_doc(f0, f1),
+        same_doc(f1, f2),
+    ensures
+        same_doc(f0, f2),
+{
+    assert forall|i: int| 0 <= i < f0.states@.len() implies state_same(#[trigger] f0.states@[i], f2.states@[i]) by {
+        assert(state_same(f0.states@[i], f1.states@[i]));
+        assert(state_same(f1.states@[i], f2.states@[i]));
+    }
+}
+
+/// after a microstep the loop invariant holds again
+pub proof fn lemma_inv_after_microstep(f0: &Fsm, fa: &Fsm, fb: &Fsm, ga: &GlobalData, gb: &GlobalData)
+    requires
+        loop_inv(f0, fa, ga),
+        same_doc(fa, fb),
+        sess_wf(fb, gb),
+        gb.child_sessions@.submap_of(ga.child_sessions@),
+        gb.caller_invoke_id == ga.caller_invoke_id,
+        gb.parent_session_id == ga.parent_session_id,
+    ensures
+        loop_inv(f0, fb, gb),
+{
+    lemma_same_doc_trans(f0, fa, fb);
+    lemma_same_doc_st(fa, fb);
+    assert forall|k: String| gb.child_sessions@.contains_key(k) implies match (#[trigger] gb.child_sessions@[k]).state_id {
+        Some(s) => valid_id(fb, s),
+        None => true,
+    } by {
+        assert(ga.child_sessions@.contains_key(k));
+        assert(ga.child_sessions@[k] == gb.child_sessions@[k]);
+    }
+}
